@@ -1092,16 +1092,17 @@ def _rule_d_matching(rep):
 
 # ---- R05.e ------------------------------------------------------------------------------------------
 
-def _optional_empty(fi, ret, v):
-    """The return is taken exactly under the facts "optional" and "value is empty" (in either order / nesting)."""
-    cs = conds(fi, ret)
-    if not (has_cond(cs, lambda t: norm(t) == 'optional', True) and implies_absent(cs, v)):
+def _optional_empty(fi, ret, v, opt='optional', flag=None):
+    """The return is taken exactly under the facts "optional" and "value is empty" (in either order / nesting); ``flag``:
+    text of the arity test that selects the branch of the function the return belongs to (not one of the two facts)."""
+    cs = [(t, pol) for t, pol in conds(fi, ret) if flag is None or norm(t) != flag]
+    if not (has_cond(cs, lambda t: norm(t) == opt, True) and implies_absent(cs, v)):
         return False
     # ... and under nothing else: every other condition on the path is a conjunction these two facts were split from
     for t, pol in cs:
         if isinstance(t, ast.BoolOp) and ((isinstance(t.op, ast.And) and pol is True) or (isinstance(t.op, ast.Or) and pol is False)):
             continue
-        if (norm(t) == 'optional' and pol is True) or implies_absent([(t, pol)], v):
+        if (norm(t) == opt and pol is True) or implies_absent([(t, pol)], v):
             continue
         return False
     return True
@@ -1123,6 +1124,10 @@ def _list_of_conversions(fi, outer, ret, v, conv):
             return False
         loop = fi.mod.parents.get(appends[0])
         body = fi.node.body
+        holder = fi.mod.parents.get(ret)      # the statement list the return stands in (the function's, or one arm of the arity test)
+        for fld in ('body', 'orelse'):
+            if holder is not fi.node and isinstance(getattr(holder, fld, None), list) and ret in getattr(holder, fld):
+                body = getattr(holder, fld)
         init = [st for st in body if isinstance(st, (ast.Assign, ast.AnnAssign)) and L in names_stored(st)]
         if len(init) != 1 or loop not in body or body.index(init[0]) > body.index(loop):
             return False        # the accumulator is created once, before the loop, at the top level of the converter
@@ -1145,51 +1150,253 @@ def _list_of_conversions(fi, outer, ret, v, conv):
     return norm(val) == 'list(map(%s, %s))' % (conv, want_iter)
 
 
+class _ConvModel(object):
+    """What build_converter returns, reduced to its roles: the function run for a multi binding (``mf``) and the one run
+    for a single binding (``sf``), how each of them spells the converter (``conv(f)``), the optional flag (``opt(f)``)
+    and the captured text (``val(f)``), and whether the choice between them is made on ``multi`` (``selection``)."""
+    outer = None
+
+
+def _closure_model(route, bcv, bp):
+    """Two nested functions closing over build_converter's parameters, one returned under ``multi``, the other otherwise."""
+    conv = bp[0]
+    inner = dict((f.name, f) for q, f in route.functions.items() if q.startswith(bcv.qualname + '.') and q.count('.') == bcv.qualname.count('.') + 1)
+    rets = returns_of(bcv)
+    if len(rets) != 2 or not all(r.value is not None and norm(r.value) in inner for r in rets) or len(set(norm(r.value) for r in rets)) != 2:
+        return None
+    M = _ConvModel()
+    M.form, M.outer, M.flag = 'two closures', bcv, None
+    stable_outer = all(_stores(bcv.node, n) == 0 for n in (conv, 'optional', 'multi'))
+    multi_ret = [r for r in rets if has_cond(conds(bcv, r), lambda t: norm(t) == 'multi', True)]
+    single_ret = [r for r in rets if r not in multi_ret]
+    M.selection = stable_outer and len(multi_ret) == 1 and len(single_ret) == 1 and all(_stores(bcv.node, norm(r.value)) == 1 for r in rets)
+    M.why = 'build_converter does not select between a multi and a single converter on "multi"'
+    if M.selection:
+        M.mf, M.sf = inner[norm(multi_ret[0].value)], inner[norm(single_ret[0].value)]
+        for f in (M.mf, M.sf):
+            if len(f.params()) != 1 or f.node.args.vararg or f.node.args.kwarg:
+                raise AnalysisError('%s: expected a one-argument converter' % f.qualname)
+    M.conv = lambda f: conv
+    M.opt = lambda f: 'optional'
+    M.val = lambda f: f.params()[0]
+    M.frozen = lambda f: (conv, 'optional', f.params()[0])
+    return M
+
+
+_CLASS_HOOKS = ('__getattr__', '__getattribute__', '__setattr__', '__delattr__', '__new__', '__init_subclass__', '__slots__')
+
+
+def _class_model(repo, route, bcv, bp):
+    """``return K(converter, optional, multi)`` -- K a plain class of the module whose instances are called with the captured
+    text: __init__ stores the converter and the optional flag once, unconditionally, in instance attributes nothing else
+    writes; the function that runs is chosen on ``multi`` -- once, in __init__ (an instance attribute bound to one of two
+    methods), or at every call on an attribute holding ``multi``."""
+    conv = bp[0]
+    rets = returns_of(bcv)
+    if len(rets) != 1 or rets[0].value is None:
+        return None
+    call = _inline(bcv, rets[0].value)
+    if not (isinstance(call, ast.Call) and isinstance(call.func, ast.Name)) or call.func.id in _all_params(bcv) or _stores(bcv.node, call.func.id):
+        return None
+    kind, kmod, K = repo.resolve(route, call.func.id)
+    if kind != 'class' or K.mod is not route:
+        return None
+    what = 'build_converter returns an instance of %s' % K.name
+    if any(norm(b) != 'object' for b in K.node.bases) or K.node.keywords or K.node.decorator_list:
+        raise AnalysisError('%s, a class with bases / a metaclass / decorators: its attribute lookup is not followed' % what)
+    hooks = [h for h in _CLASS_HOOKS if h in K.methods or h in K.class_attrs]
+    if hooks:
+        raise AnalysisError('%s, which defines %s: its attribute lookup is not followed' % (what, hooks[0]))
+    init, callm = K.methods.get('__init__'), K.methods.get('__call__')
+    if init is None or callm is None:
+        raise AnalysisError('%s, which lacks __init__ / __call__' % what)
+    for f in K.methods.values():
+        if f.node.decorator_list or not f.params() or f.node.args.vararg or f.node.args.kwarg:
+            raise AnalysisError('%s: method %s is decorated / takes * or **: not followed' % (what, f.qualname))
+    if any(isinstance(n, ast.Call) and isinstance(n.func, ast.Name) and n.func.id in ('setattr', 'delattr', 'vars') for n in ast.walk(K.node)) or \
+            any(isinstance(n, ast.Attribute) and n.attr == '__dict__' for n in ast.walk(K.node)):
+        raise AnalysisError('%s, whose attributes are written reflectively' % what)
+    M = _ConvModel()
+    M.form, M.cls = 'callable class %s' % K.name, K
+    M.selection, M.why = False, ''
+    # -- what the constructor receives
+    if any(isinstance(a, ast.Starred) for a in call.args) or any(k.arg is None for k in call.keywords):
+        raise AnalysisError('%s built with * / ** arguments' % what)
+    ips = init.params()[1:]
+    got = dict(zip(ips, call.args))
+    if len(call.args) > len(ips) or any(k.arg in got or k.arg not in ips for k in call.keywords):
+        raise AnalysisError('%s: the constructor call does not fit %s' % (what, init.qualname))
+    got.update((k.arg, k.value) for k in call.keywords)
+    stable_outer = all(_stores(bcv.node, n) == 0 for n in (conv, 'optional', 'multi'))
+    role = {}
+    for r in (conv, 'optional', 'multi'):
+        ps = [p_ for p_, v in got.items() if isinstance(v, ast.Name) and v.id == r]
+        if len(ps) == 1 and _stores(init.node, ps[0]) == 0:
+            role[r] = ps[0]
+    if len(role) != 3 or not stable_outer:
+        M.why = 'build_converter does not hand %s to %s (each exactly once, unchanged)' % (
+            ' / '.join(r for r in (conv, 'optional', 'multi') if r not in role) or 'its parameters', K.name)
+        return M
+    # -- instance attributes: [(attribute, method, store node)]
+    writes = []
+    for f in K.methods.values():
+        me = f.params()[0]
+        for n in ast.walk(f.node):
+            if isinstance(n, ast.Attribute) and isinstance(n.ctx, (ast.Store, ast.Del)):
+                writes.append((n.attr, f, n, isinstance(n.value, ast.Name) and n.value.id == me))
+    # writes of attributes elsewhere in the module: a method of another class writing through its own ``self`` cannot reach
+    # an instance of K; any other write of an attribute of the same name (through an alias, from a function) is not followed
+    outside = []
+    for n in ast.walk(route.tree):
+        if isinstance(n, ast.Attribute) and isinstance(n.ctx, (ast.Store, ast.Del)) and not any(n is w[2] for w in writes):
+            fn = route.enclosing_function(n)
+            fi_ = route.func_of_node(fn) if fn is not None and not isinstance(fn, ast.Lambda) else None
+            if fi_ is not None and fi_.cls is not None and fi_.cls is not K and fi_.params() and isinstance(n.value, ast.Name) and \
+                    n.value.id == fi_.params()[0] and not _stores(fi_.node, n.value.id):
+                continue
+            outside.append(n)
+
+    def not_aliased(attr):
+        if any(n.attr == attr for n in outside) or any(w[0] == attr and not w[3] for w in writes):
+            raise AnalysisError('%s: attribute %s is also written through another name than self: not followed' % (what, attr))
+    ime = init.params()[0]
+    if _stores(init.node, ime) or any(isinstance(n, ast.Return) for n in walk_body(init.node)):
+        raise AnalysisError('%s.__init__ re-binds self / returns early: not followed' % K.name)
+
+    def field(param):
+        """the instance attribute that holds a constructor parameter: stored once in the whole class, by a top-level
+        statement of __init__, never written anywhere else in the module, not shadowed by a method of that name"""
+        cands = []
+        for st in init.node.body:
+            if isinstance(st, ast.Assign) and len(st.targets) == 1 and isinstance(st.targets[0], ast.Attribute) and \
+                    isinstance(st.targets[0].value, ast.Name) and st.targets[0].value.id == ime and isinstance(st.value, ast.Name) and st.value.id == param:
+                cands.append(st.targets[0].attr)
+        for a in cands:
+            not_aliased(a)
+        cands = [a for a in cands if sum(1 for w in writes if w[0] == a) == 1 and a not in K.methods]
+        return cands[0] if cands else None
+    M.conv_attr, M.opt_attr = field(role[conv]), field(role['optional'])
+    if M.conv_attr is None or M.opt_attr is None:
+        M.why = '%s does not keep the %s it was built with in an attribute written once' % (K.name, 'converter' if M.conv_attr is None else 'optional flag')
+        return M
+    # -- the function that runs
+    cps = callm.params()
+    if len(cps) != 2:
+        raise AnalysisError('%s: expected (self, value)' % callm.qualname)
+    cme, cv = cps
+    crets = returns_of(callm)
+    M.why = '%s.__call__ does not hand the captured text, unchanged, to the converter chosen on "multi"' % K.name
+
+    def applied(e):
+        """name of the attribute A when ``e`` is  self.A(value)"""
+        e = _inline(callm, e) if e is not None else None
+        if isinstance(e, ast.Call) and isinstance(e.func, ast.Attribute) and isinstance(e.func.value, ast.Name) and e.func.value.id == cme and \
+                len(e.args) == 1 and not e.keywords and isinstance(e.args[0], ast.Name) and e.args[0].id == cv:
+            return e.func.attr
+        return None
+    if _stores(callm.node, cv) or _stores(callm.node, cme) or any(isinstance(s_, ast.Try) for s_ in stmts_of(callm.node)):
+        return M
+    M.flag = None
+    M.conv = lambda f: '%s.%s' % (f.params()[0], M.conv_attr)
+    M.opt = lambda f: '%s.%s' % (f.params()[0], M.opt_attr)
+    M.val = lambda f: f.params()[1]
+    M.frozen = lambda f: tuple(f.params())
+    chosen = None       # (multi method name, single method name)
+    if len(crets) == 1 and applied(crets[0].value) is not None and not conds(callm, crets[0]):
+        # the choice is made once, in __init__: an instance attribute bound to one of two methods
+        S = applied(crets[0].value)
+        ws = [w for w in writes if w[0] == S]
+        not_aliased(S)
+        if S in K.methods or len(ws) != 2 or any(w[1] is not init for w in ws):
+            return M
+        picks = {}
+        for a, f, n, own in ws:
+            st = stmt_of(route, n)
+            cs = conds(init, st)
+            v = st.value if isinstance(st, ast.Assign) and len(st.targets) == 1 and st.targets[0] is n else None
+            if not (isinstance(v, ast.Attribute) and isinstance(v.value, ast.Name) and v.value.id == ime and len(cs) == 1 and norm(cs[0][0]) == role['multi']):
+                return M
+            picks[cs[0][1]] = v.attr
+        if set(picks) != {True, False}:
+            return M
+        icfg = cfg_of(init)
+        if not icfg.must_pass(icfg.nodes_of_all([stmt_of(route, w[2]) for w in ws]), icfg.entry, icfg.exit, normal_only=True):
+            return M
+        chosen = (picks[True], picks[False])
+    else:
+        # the choice is made at every call, on an attribute that holds ``multi``: every return stands under that test
+        mattr = field(role['multi'])
+        if mattr is None or not crets:
+            return M
+        flag = '%s.%s' % (cme, mattr)
+        side = lambda r: [p_ for t, p_ in conds(callm, r) if norm(t) == flag]
+        ccfg = cfg_of(callm)
+        if any(len(side(r)) != 1 for r in crets) or set(side(r)[0] for r in crets) != {True, False} or \
+                not ccfg.must_pass(ccfg.nodes_of_all(crets), ccfg.entry, ccfg.exit, normal_only=True):
+            return M
+        if len(crets) == 2 and all(applied(r.value) is not None and len(conds(callm, r)) == 1 for r in crets):
+            on = [r for r in crets if side(r)[0]]
+            off = [r for r in crets if not side(r)[0]]
+            chosen = (applied(on[0].value), applied(off[0].value))
+        else:
+            # ... and the two converters are written out in the arms of the test
+            M.flag, M.mf, M.sf, M.selection = flag, callm, callm, True
+            return M
+    for c in chosen or ():
+        not_aliased(c)
+    if chosen is None or chosen[0] == chosen[1] or any(c not in K.methods or any(w[0] == c for w in writes) for c in chosen):
+        return M
+    M.mf, M.sf = K.methods[chosen[0]], K.methods[chosen[1]]
+    for f in (M.mf, M.sf):
+        if len(f.params()) != 2:
+            raise AnalysisError('%s: expected (self, value)' % f.qualname)
+    M.selection = True
+    return M
+
+
 def _rule_e_converters(rep):
-    route = rep.repo.mod(ROUTE)
+    repo = rep.repo
+    route = repo.mod(ROUTE)
     bcv = route.func('build_converter')
     bp = bcv.params()
     if not bp or 'multi' not in bp or 'optional' not in bp:
         raise AnalysisError('build_converter: expected (converter, optional, multi)')
-    conv = bp[0]
-    stable_outer = all(_stores(bcv.node, n) == 0 for n in (conv, 'optional', 'multi'))
-    inner = dict((f.name, f) for q, f in route.functions.items() if q.startswith('build_converter.') and q.count('.') == 1)
-    rets = returns_of(bcv)
-    if len(rets) != 2 or not all(r.value is not None and norm(r.value) in inner for r in rets) or len(set(norm(r.value) for r in rets)) != 2:
-        raise AnalysisError('build_converter: expected two nested converter functions, one of which is returned (found: %s)' %
-                            ', '.join(short(r, 40) for r in rets))
-    multi_ret = [r for r in rets if has_cond(conds(bcv, r), lambda t: norm(t) == 'multi', True)]
-    single_ret = [r for r in rets if r not in multi_ret]
-    ok = stable_outer and len(multi_ret) == 1 and len(single_ret) == 1 and norm(multi_ret[0].value) in inner and norm(single_ret[0].value) in inner and \
-        all(_stores(bcv.node, norm(r.value)) == 1 for r in rets)
-    rep.check('R05.e', fkey(bcv, 'selection'), ok, 'multi selects the list converter, otherwise the single converter' if ok else
-              'build_converter does not select between a multi and a single converter on "multi"', route, bcv.node)
+    M = _closure_model(route, bcv, bp) or _class_model(repo, route, bcv, bp)
+    if M is None:
+        raise AnalysisError('build_converter: expected two nested converter functions, one of which is returned, or an instance of a callable '
+                            'class of the module (found: %s)' % ', '.join(short(r, 40) for r in returns_of(bcv)))
+    ok = bool(M.selection)
+    rep.check('R05.e', fkey(bcv, 'selection'), ok, 'multi selects the list converter, otherwise the single converter (%s)' % M.form if ok else
+              M.why or 'build_converter does not select between a multi and a single converter on "multi"', route, bcv.node)
     if not ok:
         return
-    mf, sf = inner[norm(multi_ret[0].value)], inner[norm(single_ret[0].value)]
-    for f in (mf, sf):
-        if len(f.params()) != 1:
-            raise AnalysisError('%s: expected a one-argument converter' % f.qualname)
-    local_ok = lambda f: all(_stores(f.node, n) == 0 for n in (conv, 'optional', f.params()[0])) and \
-        not any(isinstance(s, ast.Try) for s in stmts_of(f.node))
-    v = mf.params()[0]
-    empties = [r for r in returns_of(mf) if isinstance(r.value, ast.List) and not r.value.elts]
-    ok1 = local_ok(mf) and len(empties) == 1 and _optional_empty(mf, empties[0], v)
-    convr = [r for r in returns_of(mf) if r not in empties]
-    ok2 = local_ok(mf) and len(convr) == 1 and convr[0].value is not None and _list_of_conversions(mf, bcv, convr[0], v, conv)
-    rep.check('R05.e', fkey(mf, 'optional empty'), ok1, "an absent optional multi binding yields [] before any conversion" if ok1 else
+    mf, sf = M.mf, M.sf
+    local_ok = lambda f: all(_stores(f.node, n) == 0 for n in M.frozen(f)) and not any(isinstance(s, ast.Try) for s in stmts_of(f.node))
+
+    def arm(f, multi):
+        """the returns of the converter for that arity: all of the function's, or those in the arm of the arity test"""
+        if M.flag is None:
+            return returns_of(f)
+        return [r for r in returns_of(f) if has_cond(conds(f, r), lambda t: norm(t) == M.flag, multi)]
+    v, conv, opt = M.val(mf), M.conv(mf), M.opt(mf)
+    empties = [r for r in arm(mf, True) if isinstance(r.value, ast.List) and not r.value.elts]
+    ok1 = local_ok(mf) and len(empties) == 1 and _optional_empty(mf, empties[0], v, opt, M.flag)
+    convr = [r for r in arm(mf, True) if r not in empties]
+    ok2 = local_ok(mf) and len(convr) == 1 and convr[0].value is not None and _list_of_conversions(mf, M.outer, convr[0], v, conv)
+    tag = (lambda what, arity: what) if mf is not sf else (lambda what, arity: '%s (%s arm)' % (what, arity))
+    rep.check('R05.e', fkey(mf, tag('optional empty', 'multi')), ok1, "an absent optional multi binding yields [] before any conversion" if ok1 else
               'the multi converter does not return [] for an empty optional value', route, mf.node)
-    rep.check('R05.e', fkey(mf, 'list of conversions'), ok2, "a multi binding yields [converter(v) for v in value.split('/')[1:]]" if ok2 else
+    rep.check('R05.e', fkey(mf, tag('list of conversions', 'multi')), ok2, "a multi binding yields [converter(v) for v in value.split('/')[1:]]" if ok2 else
               "the multi converter is not [converter(v) for v in value.split('/')[1:]]", route, mf.node)
-    v = sf.params()[0]
-    nones = [r for r in returns_of(sf) if r.value is None or (isinstance(r.value, ast.Constant) and r.value.value is None)]
-    ok1 = local_ok(sf) and len(nones) == 1 and _optional_empty(sf, nones[0], v)
-    convr = [r for r in returns_of(sf) if r not in nones]
-    ok2 = local_ok(sf) and len(convr) == 1 and norm(_inline(sf, convr[0].value, outer=bcv)) in (
+    v, conv, opt = M.val(sf), M.conv(sf), M.opt(sf)
+    nones = [r for r in arm(sf, False) if r.value is None or (isinstance(r.value, ast.Constant) and r.value.value is None)]
+    ok1 = local_ok(sf) and len(nones) == 1 and _optional_empty(sf, nones[0], v, opt, M.flag)
+    convr = [r for r in arm(sf, False) if r not in nones]
+    ok2 = local_ok(sf) and len(convr) == 1 and norm(_inline(sf, convr[0].value, outer=M.outer)) in (
         "%s(%s.replace('/', ''))" % (conv, v), "%s(%s.lstrip('/'))" % (conv, v), "%s(%s.strip('/'))" % (conv, v))
-    rep.check('R05.e', fkey(sf, 'optional empty'), ok1, 'an absent optional single binding yields None before any conversion' if ok1 else
+    rep.check('R05.e', fkey(sf, tag('optional empty', 'single')), ok1, 'an absent optional single binding yields None before any conversion' if ok1 else
               'the single converter does not return None for an empty optional value', route, sf.node)
-    rep.check('R05.e', fkey(sf, 'conversion'), ok2, 'a single binding is converted from its segment without the separator' if ok2 else
+    rep.check('R05.e', fkey(sf, tag('conversion', 'single')), ok2, 'a single binding is converted from its segment without the separator' if ok2 else
               'the single converter does not strip the separator before converting', route, sf.node)
 
 
